@@ -97,7 +97,15 @@ class Report:
         return cond
 
     # ---- finishing
-    def finish(self, repo=None):
+    def has_new_violations(self):
+        known = load_known()
+        kf = [k for k in known.get("findings", []) if k.get("property") == self.prop]
+        for i in self.instances:
+            if i["status"] == "violation" and not any(k["rule"] == i["rule"] and k["site"] == i["site"] and k["construct"] == i["construct"] for k in kf):
+                return True
+        return False
+
+    def finish(self, repo=None, partial=None):
         from .core import AnalysisError
 
         known = load_known()
@@ -160,6 +168,8 @@ class Report:
             if i["status"] == "ok" and i["rule"] not in seen_rules:
                 seen_rules.add(i["rule"])
                 samples.append({k: i[k] for k in ("rule", "site", "construct", "detail")})
+        if partial:
+            self.extra["analysis_error"] = "the analysis stopped early (only the rules evaluated before are reported): " + partial
         expl = "Static analysis of /repo source (ast; no repository code imported or run). Decided clauses: " + "; ".join(
             f"[{r}] {t}" for r, t in sorted(self.clauses.items())
         )
